@@ -162,3 +162,72 @@ Proof.
   apply (model_mesh prec Hp rfu_uniform xb xe d d (S n) v H). right.
   rewrite ratio_equal_densities, gsum_one. unfold rfu_uniform. field. apply not_0_INR. lia.
 Qed.
+
+(* ---- one iteration of each loop: the fold `loop` applies `node_step` at every position, and running it one more time
+   appends one node obtained by `node_step` from the state reached after k iterations; the geometric sum of the code's
+   second loop (`sum_loop`, state (sum, rn)) is `gsum` *)
+Lemma loop_applies_node_step k xb f r re s :
+  loop (S k) xb f r re s = fst (node_step xb f r (re, s)) :: loop k xb f r (fst (snd (node_step xb f r (re, s)))) (snd (snd (node_step xb f r (re, s)))).
+Proof. reflexivity. Qed.
+
+Lemma loop_extends_by_one_step k : forall xb f r re s,
+  loop (S k) xb f r re s = loop k xb f r re s ++ [fst (node_step xb f r (node_state f r k re s))].
+Proof.
+  induction k; intros xb f r re s.
+  - unfold node_state, node_step. simpl. apply cons_eq; [ring|reflexivity].
+  - change (loop (S (S k)) xb f r re s) with ((xb + (s + f * re)) :: loop (S k) xb f r (re * r) (s + f * re)).
+    rewrite IHk. change (loop (S k) xb f r re s) with ((xb + (s + f * re)) :: loop k xb f r (re * r) (s + f * re)).
+    rewrite <- app_comm_cons. f_equal. f_equal. f_equal. unfold node_state, node_step. cbn [fst snd].
+    rewrite (gsum_shift r k). simpl pow. ring.
+Qed.
+
+Lemma sum_loop_state k : forall r sum rn, sum_loop k r (sum, rn) = (sum + rn * gsum r k, rn * r ^ k).
+Proof.
+  induction k; intros r sum rn.
+  - simpl. f_equal; ring.
+  - change (sum_loop (S k) r (sum, rn)) with (sum_loop k r (sum + rn, rn * r)). rewrite IHk, (gsum_shift r k). simpl pow. f_equal; ring.
+Qed.
+Lemma sum_loop_is_gsum n r : fst (sum_loop n r (0, 1)) = gsum r n.
+Proof. rewrite sum_loop_state. simpl. ring. Qed.
+Lemma sum_loop_extends_by_one_step k r st : sum_loop (S k) r st = sum_step r (sum_loop k r st).
+Proof.
+  revert st. induction k; intros st; [reflexivity|].
+  change (sum_loop (S (S k)) r st) with (sum_loop (S k) r (sum_step r st)). rewrite IHk. reflexivity.
+Qed.
+
+(* ---- orientation: the mesh goes from xb towards xe whatever the sign of xe - xb, and stays between the two ends *)
+Lemma mesh_oriented xb xe n v : graded_mesh xb xe n v -> oriented xb xe v.
+Proof.
+  intros [_ [Hm _]]. split; intros Hl k Hk; specialize (Hm k Hk); nra.
+Qed.
+
+Lemma mono_chain_up (v : list R) : (forall k, (S k < length v)%nat -> node v k < node v (S k)) ->
+  forall j k, (j <= k)%nat -> (k < length v)%nat -> node v j <= node v k.
+Proof.
+  intros H j k Hjk. induction Hjk; intros Hk; [lra|]. specialize (IHHjk ltac:(lia)). specialize (H m Hk). lra.
+Qed.
+Lemma mono_chain_down (v : list R) : (forall k, (S k < length v)%nat -> node v (S k) < node v k) ->
+  forall j k, (j <= k)%nat -> (k < length v)%nat -> node v k <= node v j.
+Proof.
+  intros H j k Hjk. induction Hjk; intros Hk; [lra|]. specialize (IHHjk ltac:(lia)). specialize (H m Hk). lra.
+Qed.
+
+Lemma mesh_between xb xe n v : graded_mesh xb xe n v -> between_ends xb xe v.
+Proof.
+  intros G. pose proof (mesh_oriented _ _ _ _ G) as [Hup Hdn]. destruct G as [[Hlen [H0 Hn]] [Hm _]].
+  intros k Hk. rewrite Hlen in Hk.
+  destruct (Rtotal_order xb xe) as [Hl|[Hl|Hl]].
+  - rewrite Rmin_left, Rmax_right by lra. specialize (Hup Hl).
+    pose proof (mono_chain_up v Hup 0 k ltac:(lia) ltac:(lia)). pose proof (mono_chain_up v Hup k n ltac:(lia) ltac:(lia)). lra.
+  - destruct n.
+    + assert (k = 0)%nat by lia. subst k. rewrite H0. rewrite Rmin_left, Rmax_right by lra. lra.
+    + exfalso. specialize (Hm 0%nat ltac:(lia)). rewrite Hl in Hm. nra.
+  - rewrite Rmin_right, Rmax_left by lra. specialize (Hdn Hl).
+    pose proof (mono_chain_down v Hdn 0 k ltac:(lia) ltac:(lia)). pose proof (mono_chain_down v Hdn k n ltac:(lia) ltac:(lia)). lra.
+Qed.
+
+Lemma model_mesh_oriented prec xb xe db de n v : 0 < prec ->
+  geo_model prec rfu_sum xb xe db de n = Some v -> oriented xb xe v /\ between_ends xb xe v.
+Proof. intros Hp H. pose proof (model_mesh_sum prec xb xe db de n v Hp H) as G. exact (conj (mesh_oriented _ _ _ _ G) (mesh_between _ _ _ _ G)). Qed.
+Lemma sum_loop_rfu n r : fst (sum_loop n r (0, 1)) = gsum r n /\ rfu_sum r n = 1 / fst (sum_loop n r (0, 1)).
+Proof. split; [apply sum_loop_is_gsum|unfold rfu_sum; rewrite sum_loop_is_gsum; reflexivity]. Qed.
